@@ -21,7 +21,8 @@ PROBES = {"C04": ["constructor_args_varied", "nested_param_set", "component_repl
                   "unknown_param_rejected", "clone_of_fitted", "not_fitted_calls_checked",
                   "fit_leaves_params_checked", "composite_depth2", "pickle_unfitted",
                   "ordered_set_params", "deep_names_checked", "params_after_update_checked",
-                  "second_fit_checked", "failed_fit_checked", "failed_refit_checked"]}
+                  "second_fit_checked", "failed_fit_checked", "failed_refit_checked",
+                  "keyword_arguments_checked"]}
 FAULT_KINDS = {"C04": ["clone_midway", "pickle_roundtrip", "set_params_midway"]}
 RULE = {"C04": (
     "for a seeded choice of estimator class (all 76 importable classes), constructor-argument "
@@ -158,7 +159,7 @@ SMALL = {"n_estimators": [2, 3], "max_ensemble_size": [2, 3], "n_parameter_sampl
          "num_features": [84], "window_length": [3, 5], "sp": [1, 2], "degree": [1, 2], "n_lags": [3, 4],
          "n_sigma": [2, 3], "num_intervals": [2, 4], "word_length": [4], "window_size": [8],
          "n_intervals": [2], "num_levels": [1, 2], "m": [4], "acf_lag": [4], "acf_min_values": [2],
-         "random_state": [0, 7], "n_jobs": [None, 1, 2, 2], "alphabet_size": [4], "pad_length": [None]}
+         "random_state": [0, 7], "n_jobs": [None, 1, 2, 2], "time_limit": [0.0005], "alphabet_size": [4], "pad_length": [None]}
 CLASS_POOLS = {
     ("NaiveForecaster", "strategy"): ["last", "mean", "drift"],
     ("EnsembleForecaster", "aggfunc"): ["mean", "median", "min", "max"],
@@ -172,6 +173,8 @@ CLASS_POOLS = {
     ("ForecastingGridSearchCV", "strategy"): ["refit", "update"],
     ("ForecastingRandomizedSearchCV", "refit"): [True, False],
     ("ForecastingGridSearchCV", "refit"): [True, False],
+    ("ColumnEnsembleClassifier", "remainder"): ["drop", "passthrough"],
+    ("PolynomialTrendForecaster", "regressor"): [None, "@linear"],
 }
 # (constructed / cloned / parameter-checked only: a soft dependency is missing at fit,
 # scikit-learn's parameter validation rejects them, or the search takes minutes)
@@ -202,9 +205,11 @@ def variations(cls, rng):
                 kw[name] = round(d * rng.choice([0.5, 0.9]), 4)
     for name in sorted(kw):
         # integers as they come out of numpy arrays / grids (np.int64), not only python ints
-        if isinstance(kw[name], int) and not isinstance(kw[name], bool) and name != "random_state" \
-                and rng.random() < 0.3:
+        if isinstance(kw[name], int) and not isinstance(kw[name], bool) and rng.random() < 0.3:
             kw[name] = np.int64(kw[name])
+        if isinstance(kw[name], str) and kw[name] == "@linear":
+            from sklearn.linear_model import LinearRegression
+            kw[name] = LinearRegression(fit_intercept=False)   # the user's own regressor object
     return kw
 
 
@@ -768,7 +773,7 @@ def execute(prop, scen):
                 bad = data["y_new"].copy()
                 bad.iloc[len(bad) // 2] = np.nan
                 try:   # (a tuner with refit=False never answers predict: nothing to compare)
-                    est.predict(data["fh"])
+                    pred_before = est.predict(data["fh"])
                 except Exception:
                     continue
                 # (observe the forecaster's own fit: only a call in which *that* raised is judged)
@@ -801,8 +806,9 @@ def execute(prop, scen):
                     # NotFittedError.
                     res.probe("failed_refit_checked")
                     if getattr(est, "is_fitted", False):
+                        pred_after = None
                         try:
-                            est.predict(data["fh"])
+                            pred_after = est.predict(data["fh"])
                         except NotFittedError:
                             v("fitted_flag_after_failed_fit", "after a fit that raised (reached via %s "
                               "on an already fitted object) is_fitted is True but predict raises "
@@ -810,6 +816,14 @@ def execute(prop, scen):
                             break
                         except Exception:
                             pass
+                        if how == "fit" and pred_after is not None and isinstance(pred_before, pd.Series) \
+                                and isinstance(pred_after, pd.Series) and not C.same_series(pred_before, pred_after):
+                            # fit(bad) raised and the forecaster keeps claiming to be fitted: then on
+                            # the data of its last successful fit, not on a mixture
+                            v("fitted_flag_after_failed_fit", "a direct re-fit raised, is_fitted stays "
+                              "True, but predict changed from %s to %s: part of the failed fit was kept"
+                              % (C.fmt(pred_before), C.fmt(pred_after)), how=how, refit=True, mixed=True)
+                            break
                         try:   # continue on a cleanly fitted object
                             est.fit(data["y"], fh=data["fh"])
                         except Exception:
@@ -891,6 +905,19 @@ def execute(prop, scen):
                         break
             res.states.add(short_hash([name, op, fitted]))
     res.digest = digest.hexdigest()[:16]
+    # constructor arguments taken through **kwargs are constructor arguments too
+    EXTRA_KW = {"PCATransformer": {"whiten": True}}
+    if not res.violations and name in EXTRA_KW and any(p_.kind == p_.VAR_KEYWORD for p_ in sigp.values()):
+        try:
+            e2 = cls(**dict(kw, **EXTRA_KW[name]))
+            res.probe("keyword_arguments_checked")
+            lost = [k_ for k_ in EXTRA_KW[name] if k_ not in e2.get_params(deep=False)]
+            if lost:
+                v("param_names", "%s(**kwargs): the argument(s) %s are not reported by get_params(), so "
+                  "clone() and set_params(**get_params()) silently drop them" % (name, lost),
+                  where="kwargs")
+        except Exception as e:  # noqa
+            digest.update(("kwargs:%s" % type(e).__name__).encode())
     return res
 
 
